@@ -46,6 +46,8 @@ type aeCtx struct {
 	depIndex   map[string][]string
 	depIndexN  int
 	scope      func(w *world) bool // property-level scope: worlds outside it carry no obligation
+	compareHook *ssa.Function      // tabulation: calls to this function yield an opaque sign term
+	allowCrossTerm bool
 }
 
 func newAECtx(p *Prog) *aeCtx {
@@ -398,6 +400,29 @@ func (r *aeRun) cmp3o(x, y any, ordered bool) int {
 			return 0
 		case avTerm:
 			if a.key != b.key {
+				if r.ctx.allowCrossTerm && a.side == b.side {
+					// tabulation of a one-individual predicate: the relation of two different terms is
+					// an unknown of its own
+					key := "rel(" + a.key + "," + b.key + ")"
+					sg := 1
+					if a.key > b.key {
+						key, sg = "rel("+b.key+","+a.key+")", -1
+					}
+					r.ctx.orderedConst[key] = true
+					if poolIndex(r.ctx.pools[key], constant.MakeInt64(0)) < 0 {
+						r.mkTerm(key, a.side, types.Typ[types.Int], akOrder, nil)
+						panic(poolMiss{key, constant.MakeInt64(0)})
+					}
+					t := r.mkTerm(key, a.side, types.Typ[types.Int], akOrder, nil)
+					pp, cp := r.posOf(t.key, t.side), 2*poolIndex(r.ctx.pools[key], constant.MakeInt64(0))+1
+					switch {
+					case pp < cp:
+						return -sg
+					case pp > cp:
+						return sg
+					}
+					return 0
+				}
 				r.oof("cross-term comparison: %s with %s", a.key, b.key)
 			}
 			if a.side == b.side || r.eqOverride[a.key] {
@@ -1315,6 +1340,13 @@ func (r *aeRun) evalCall(fr *frame, c *ssa.Call) any {
 // callRepo: inline a repo callee; if it is out of fragment, fall back to an opaque derived
 // value (single-sided arguments) or an assumed relation (mirrored arguments).
 func (r *aeRun) callRepo(fn *ssa.Function, args []any, site *ssa.Call) (res any) {
+	if h := r.ctx.compareHook; h != nil && (fn == h || fn.Origin() == h) && len(args) == 2 {
+		ka, _ := keySide(args[0])
+		kb, _ := keySide(args[1])
+		key := "cmp(" + ka + "," + kb + ")"
+		r.ctx.orderedConst[key] = true
+		return r.mkTerm(key, 0, types.Typ[types.Int], akOrder, nil)
+	}
 	if r.ctx.stageMode && r.depth >= 1 {
 		if ks, s0, ok := mirroredArgs(fn, args); ok {
 			st, known := r.ctx.stages[fn]
@@ -1368,6 +1400,19 @@ func (r *aeRun) snapshot() runSnap { return runSnap{r.depth, r.inIter} }
 func (r *aeRun) restore(s runSnap)  { r.depth = s.depth; r.inIter = s.inIter }
 
 func (r *aeRun) opaqueCall(fn *ssa.Function, args []any, why string) any {
+	// a stateless receiver (*Ecosystem with no fields) carries no information
+	var kept []any
+	for i, a := range args {
+		if i < len(fn.Params) {
+			if pt, ok := fn.Params[i].Type().Underlying().(*types.Pointer); ok {
+				if st, ok := pt.Elem().Underlying().(*types.Struct); ok && st.NumFields() == 0 {
+					continue
+				}
+			}
+		}
+		kept = append(kept, a)
+	}
+	args = kept
 	side, mixed, keys := sidesOf(args)
 	name := fn.Name()
 	if keys == nil {
